@@ -562,6 +562,10 @@ def replay_states(inputs):
             dmin = brute_mindist(lat.matrix, diff.positions.reshape(-1, 3), sites.frac_coords, rng=3).min(axis=0)
             far = [lab for lab in radius if all(dmin[k] > radius[lab] + 0.05 for k in range(len(labels)) if labels[k] == lab)]
             radius = {**{lab: radius[lab] for lab in far}, **{lab: r for lab, r in radius.items() if lab not in far}}
+        if inputs.get('single_entry'):
+            # a table with one entry that names only some of the labels: the sites of the other labels take no atoms
+            keep = sorted(radius)[int(inputs['single_entry']) % len(radius)]
+            radius = {keep: max(radius[keep], 1.0)}
     else:
         radius = {'': float(inputs.get('radius', 1.0))}
     bad = []
@@ -629,6 +633,9 @@ def bounded_states(tier, seed):
             inp['labels'] = ['A', 'B', 'A', 'A', 'C', 'A', 'D'][:7]
             inp['n_sites'] = 7
             inp['unvisited_first'] = True
+            if c % 8 == 5:
+                inp['single_entry'] = 1 + c // 8
+                inp['unvisited_first'] = False
         if c % 4 == 3:
             inp['auto_radius'] = True
             if c % 8 == 7:
